@@ -6,12 +6,13 @@ Glue between the generated pieces (`Gen/VMInt.lean`: opcode bodies of run.go, `f
 `emit…` choices of builder_instructions.go) and the source-level operators. Hand-written here, and
 tied to the code by the correspondence harness only:
 
-* which `emit…` function the emitter calls for which operator (`emitBinaryOp`, `emitUnaryOp` in
-  emitter_expressions.go) — `emitFnOf`, `shiftFnOf`;
+* the order in which `emitBinaryOp` consults its three operator switches (`binPlan`; the switches
+  themselves are regenerated: `binEmitBit`, `binEmitInt`, `binEmitGen`), `emitNeg` / `emitXor` for
+  the unary operators (`emitUnaryOp`);
 * unary `^x` is emitted as `mask ^ x` with `mask = -1` (signed) or the maximum of the type;
 * a conversion is a move when source and destination kind coincide, else `OpConvertInt` /
   `OpConvertUint` by the signedness of the source (`changeRegister`, `emitConvert`);
-* the condition `emitComparison` picks (`…U` conditions for unsigned kinds).
+* that "unsigned" for `emitComparison` means `¬ k.signed` (the table `cmpCond` is regenerated).
 
 Core Lean only. -/
 namespace ScriggoV.VM
@@ -32,20 +33,35 @@ def runEmitted (e : Emitted) (k0 : Kind) (x y junk : BitVec 64) : Except Fault (
     | _ => k0
   vmBody e.op k (content e.a) (content e.b) (content e.c)
 
-def emitFnOf : BinOp → EmitFn
-  | .add => .emitAdd | .sub => .emitSub | .mul => .emitMul | .div => .emitDiv | .rem => .emitRem
-  | .and => .emitAnd | .or => .emitOr | .xor => .emitXor | .andNot => .emitAndNot
+def srcOpOfBin : BinOp → SrcOp
+  | .add => .add | .sub => .sub | .mul => .mul | .div => .div | .rem => .rem
+  | .and => .and | .or => .or | .xor => .xor | .andNot => .andNot
 
-def shiftFnOf : ShiftOp → EmitFn
-  | .shl => .emitShl | .shr => .emitShr
+def srcOpOfShift : ShiftOp → SrcOp
+  | .shl => .shl | .shr => .shr
+
+/-- `emitBinaryOp` for an arithmetic, shift or bit operator at operand kind `k`: the emit function
+it calls and whether it first moves `x` into a new register `z` and passes `z` as `x`. The three
+tables are regenerated from the three `switch op` statements; the order in which they are
+consulted (bit operations first, then `kind == reflect.Int`, then the rest) is hand-written. -/
+def binPlan (op : SrcOp) (k : Kind) : Option (EmitFn × Bool) :=
+  match binEmitBit op with
+  | some p => some p
+  | none => if k = .int then binEmitInt op else binEmitGen op
+
+/-- the instruction for `op` at kind `k` run on register contents -/
+def runPlan (op : SrcOp) (k : Kind) (x y junk : BitVec 64) : Except Fault (BitVec 64) :=
+  match binPlan op k with
+  | some (f, _) => runEmitted (emit f k) k x y junk
+  | none => .error .other
 
 /-- `x op y` at kind `k` as the emitter and the VM compute it -/
 def vmOp (op : BinOp) (k : Kind) (x y junk : BitVec 64) : Except Fault (BitVec 64) :=
-  runEmitted (emit (emitFnOf op) k) k x y junk
+  runPlan (srcOpOfBin op) k x y junk
 
 /-- `x << n`, `x >> n` with `x` of kind `k`; `n` is the content of the count register -/
 def vmShift (op : ShiftOp) (k : Kind) (x n junk : BitVec 64) : Except Fault (BitVec 64) :=
-  runEmitted (emit (shiftFnOf op) k) k x n junk
+  runPlan (srcOpOfShift op) k x n junk
 
 /-- `-y` -/
 def vmNeg (k : Kind) (y junk : BitVec 64) : Except Fault (BitVec 64) :=
@@ -75,15 +91,11 @@ of the source, destination type of kind String -/
 def vmConvStr (src : Kind) (x : BitVec 64) : Bytes :=
   if src.signed then vmConvertIntStr x else vmConvertUintStr x
 
-/-- the condition `emitComparison` chooses -/
-def condOf (op : CmpOp) (k : Kind) : Cond :=
-  match op, k.signed with
-  | .eq, _ => .equal
-  | .ne, _ => .notEqual
-  | .lt, true => .less | .lt, false => .lessU
-  | .le, true => .lessEqual | .le, false => .lessEqualU
-  | .gt, true => .greater | .gt, false => .greaterU
-  | .ge, true => .greaterEqual | .ge, false => .greaterEqualU
+def srcCmpOf : CmpOp → SrcCmp
+  | .eq => .eq | .ne => .ne | .lt => .lt | .le => .le | .gt => .gt | .ge => .ge
+
+/-- the condition `emitComparison` chooses (`cmpCond` is regenerated from its switches) -/
+def condOf (op : CmpOp) (k : Kind) : Cond := cmpCond (srcCmpOf op) (!k.signed)
 
 /-- `x op y` for a comparison operator: OpIfInt with A = x, C = y -/
 def vmCmp (op : CmpOp) (k : Kind) (x y : BitVec 64) : Bool :=
